@@ -5,6 +5,7 @@
 import DnsModel.Lemmas.SectorTotal
 import DnsModel.Tie.Name
 import DnsModel.Tie.Sector
+import DnsModel.Tie.Parse
 namespace Dns.C01
 open Dns Res Sector
 
@@ -137,6 +138,23 @@ theorem source_loader_tie (p : Bytes) (s : Sector) (n : Nat) :
   ⟨Tie.ensure_remaining_len_eq p s n, Tie.u8_load_eq p s n, Tie.be16_load_eq p s n, Tie.rr_type_eq p s,
    Tie.rr_class_eq p s, Tie.s_qdcount_eq p, Tie.s_ancount_eq p, Tie.s_nscount_eq p, Tie.s_arcount_eq p,
    Tie.s_is_response_eq p⟩
+
+/-- **The validator of the current source text is total.**  `Tr.Sector.new` / `Tr.Sector.parse` are the translations
+of `DNSSector::new` and `DNSSector::parse` (with everything `parse` calls) written by rs2lean.py from
+/repo/src/dns_sector.rs on this run.  For every byte string, `parse` started on the state `new` builds returns
+either the tuple of `ParsedPacket`'s fields — whose first component is the input itself, `Some(packet)` — or an
+error; never a panic (out-of-range index, underflowing subtraction, overflowing `edns_count += 1`, failed
+assertion) and never runs out of fuel. -/
+theorem source_parse_total (p : Bytes) :
+    Tr.Sector.new p = .ok (p, 0, none, none, 0, none, none, none, 512) ∧
+    ((∃ v, Tr.Sector.parse p 0 none none 0 none none none 512 = .ok (Tie.viewTup p v) ∧ (Tie.viewTup p v).1 = some p) ∨
+     (∃ e, Tr.Sector.parse p 0 none none 0 none none none 512 = .err e)) := by
+  refine ⟨by simpa [Tie.tup, Sector.new] using Tie.new_eq p, ?_⟩
+  rw [Tie.parse_eq]
+  rcases parse_total p with ⟨v, hv⟩ | ⟨e, he⟩
+  · left; exact ⟨v, by simp [hv], rfl⟩
+  · right; exact ⟨e, by simp [he]⟩
+
 
 example : Tr.Name.check_compressed_name [3, 119, 119, 119, 0, 0xc0, 0] 5 = .ok 7 := by decide
 example : Tr.Name.check_uncompressed_name [3, 119, 119, 119, 0, 0xc0, 0] 5 = .err .invalidName := by decide
